@@ -4,8 +4,11 @@ patch=$1; shift
 cd /repo || exit 2
 if ! git diff --quiet; then echo "/repo has local changes"; exit 2; fi
 git apply "$patch" || { echo "patch does not apply"; exit 2; }
+# the evidence files are rewritten by every check: keep the ones of the unchanged tree
+rm -rf /verif/work/evidence.saved; cp -r /verif/evidence /verif/work/evidence.saved
 for p in "$@"; do
   out=$(cd /verif && ./check $p 2>&1 | grep -E "VIOLATION|KNOWN-FINDING" | cut -c1-260)
   echo "[$p] ${out:-no alarm}"
 done
 git checkout -- . && git clean -fdq && git status --short | head -3
+rm -rf /verif/evidence; mv /verif/work/evidence.saved /verif/evidence
